@@ -1,4 +1,6 @@
 """C18 — index bookkeeping is a bijection (DESIGN.md §3 C18)."""
+import sympy as sp
+
 from pv.check import run_check
 from pv.entail import entails
 from pv.expr import Ctx, guard_facts, key_contains
@@ -30,6 +32,15 @@ def label_keys(itvar):
     return [("field", "std::pair::first", ("op", "->", itvar)), ("field", "std::pair::first", ("op", "*", itvar))]
 
 
+def lh_subkeys(k):
+    yield k
+    if isinstance(k, tuple):
+        for x in k:
+            if isinstance(x, tuple):
+                for y in lh_subkeys(x):
+                    yield y
+
+
 def body(chk, db, cfgname):
     f = db.fn(IC + "prepare", nparams=1)
     ctx = Ctx(f, db)
@@ -53,6 +64,42 @@ def body(chk, db, cfgname):
         lk = ctx.key(f.nodes[W]["l"], inline=False)
         counters.add(lk[3])
     if len(counters) != 1 or list(counters)[0][0] != "var":
+        # a slot computed from the loop variables (base + orbital*K + spin): in a mixed-radix layout the stride of the outer
+        # variable must be the range of the inner one; another stride is positive evidence of colliding / skipped slots
+        from pv.formula import Formula
+        for W in writes:
+            lk = ctx.key(f.nodes[W]["l"], inline=False)
+            if lk[3][0] == "var":
+                continue
+            shapes_ = [loop_shape(f, ctx, L) for L in enclosing_loops(f, W)]
+            idxl = [s_ for s_ in shapes_ if s_["kind"] == "index" and s_["start"] == ("lit", 0) and s_["rel"] == "<"]
+            if len(idxl) != 2:
+                continue
+            Fm = Formula()
+            inner, outer_ = idxl[0], idxl[1]
+            vi, vo = Fm.name_atom(inner["var"], inner["var"][2]), Fm.name_atom(outer_["var"], outer_["var"][2])
+            def _nm(k_):
+                k2 = ctx.key_of_var(k_) if hasattr(ctx, "key_of_var") else k_
+                while isinstance(k2, tuple) and k2[0] == "cast":
+                    k2 = k2[2]
+                return k2[1].split("::")[-1] if isinstance(k2, tuple) and k2[0] == "field" else None
+            for b_ in (inner["bound"], outer_["bound"]):
+                if _nm(b_):
+                    Fm.name_atom(b_, _nm(b_))
+            for sub_ in lh_subkeys(ctx.key(f.nodes[W]["l"], inline=True)[3]):
+                if isinstance(sub_, tuple) and sub_ and sub_[0] == "field" and sub_[1].startswith("Pomerol::Lattice::Site::"):
+                    Fm.name_atom(sub_, sub_[1].split("::")[-1])
+            Bi, Bo = Fm.conv(inner["bound"]), Fm.conv(outer_["bound"])
+            e_ = sp.expand(Fm.conv(ctx.key(f.nodes[W]["l"], inline=True)[3]))
+            ci, co = e_.coeff(vi, 1), e_.coeff(vo, 1)
+            rest = sp.expand(e_ - ci * vi - co * vo)
+            if rest.has(vi) or rest.has(vo) or ci == 0 or co == 0:
+                continue
+            if (sp.simplify(ci - 1) == 0 and sp.simplify(co - Bi) == 0) or (sp.simplify(co - 1) == 0 and sp.simplify(ci - Bo) == 0):
+                continue
+            r1.bad(IC + "prepare:slot", f.loc(W), "the slot is computed as %s with %s in [0, %s) and %s in [0, %s): the stride of one variable is not the range of the other, so different (orbital, spin) pairs share a slot and other slots stay empty whenever %s differs from %s" % (
+                e_, vo, Bo, vi, Bi, co if sp.simplify(ci - 1) == 0 else ci, Bi if sp.simplify(ci - 1) == 0 else Bo), cfgname)
+            return
         raise AnalysisBroken("IndexClassification::prepare: writes do not use one running index variable")
     cur = list(counters)[0]
     cdecl = ctx.decls[cur[1]]
